@@ -49,7 +49,7 @@ def gated(prog, cls, body, accept_block, ev=None, need=-1):
                 ok = True
     # canonical predicate calls
     for bi, t in body.calls():
-        if body.callee(t) == CAN_READ:
+        if body.callee(t) == CAN_READ and "debug_assert" not in t.get("exp", ""):
             sw = switch_on(body, t["target"], t["dest"]["l"]) if t.get("target") is not None else None
             # the bool may be switched in the target block after a Not
             if sw is None:
@@ -106,6 +106,31 @@ def check_can_read_reference(chk, prog):
         chk.ok("R7.1", "AtomicWatermark::can_read is `partition_sequence < get()` (canonical gate)", b.where())
     else:
         chk.fail("R7.1", b.path, "canonical", "AtomicWatermark::can_read is no longer `partition_sequence < self.get()`", b)
+
+
+def check_actor_broadcast(chk, prog, cls, rule):
+    """the two live broadcast loops of the confirmation actor only send events below the watermark"""
+    n_gates = 0
+    for msgname in ("UpdateConfirmationWithBroadcast", "TriggerBroadcast"):
+        root = "sierradb_cluster::<confirmation::actor::ConfirmationActor as kameo::message::Message<confirmation::actor::%s>>::handle" % msgname
+        n = 0
+        for b in prog.family(root):
+            chk.analysed(b.path)
+            ev = Ev(prog, b)
+            for bi, t in b.calls():
+                if (b.callee_decl(t) or "") == "tokio::sync::broadcast::Sender::<T>::send":
+                    n += 1
+                    ok, seen = gated(prog, cls, b, bi, ev)
+                    n_gates += len(seen)
+                    if ok:
+                        chk.ok(rule, "%s: broadcast send gated by watermark" % msgname, b.where(t["line"]))
+                    else:
+                        chk.fail(rule, root, "broadcast/watermark", "event is broadcast to subscribers without a dominating gate `partition_sequence <= watermark-1`; gates seen: %s" % [x[-70:] for x in seen], b, t["line"])
+        if n == 0:
+            raise Inconclusive("%s: no broadcast send found" % msgname)
+    # broadcast_confirmed_events is fed by `pending_events`, which nothing fills
+    _check_dead_pending_events(chk, prog, rule)
+    return n_gates
 
 
 def run(chk, facts_dir, tier):
@@ -252,25 +277,7 @@ def run(chk, facts_dir, tier):
         raise Inconclusive("GetPartitionSequence: no local reply derived from the watermark found")
 
     # ---- live broadcast loops of the confirmation actor
-    for msgname in ("UpdateConfirmationWithBroadcast", "TriggerBroadcast"):
-        root = "sierradb_cluster::<confirmation::actor::ConfirmationActor as kameo::message::Message<confirmation::actor::%s>>::handle" % msgname
-        n = 0
-        for b in prog.family(root):
-            chk.analysed(b.path)
-            ev = Ev(prog, b)
-            for bi, t in b.calls():
-                if (b.callee_decl(t) or "") == "tokio::sync::broadcast::Sender::<T>::send":
-                    n += 1
-                    ok, seen = gated(prog, cls, b, bi, ev)
-                    n_gates += len(seen)
-                    if ok:
-                        chk.ok("R7.2", "%s: broadcast send gated by watermark" % msgname, b.where(t["line"]))
-                    else:
-                        chk.fail("R7.2", root, "broadcast/watermark", "event is broadcast to subscribers without a dominating gate `partition_sequence <= watermark-1`; gates seen: %s" % seen, b, t["line"])
-        if n == 0:
-            raise Inconclusive("%s: no broadcast send found" % msgname)
-    # broadcast_confirmed_events is fed by `pending_events`, which nothing fills
-    _check_dead_pending_events(chk, prog)
+    n_gates += check_actor_broadcast(chk, prog, cls, "R7.2")
 
     chk.floor("R7.1", n_gates, 10)
 
@@ -341,7 +348,7 @@ def _bare_y(cls, term):
     return rec(term, False)
 
 
-def _check_dead_pending_events(chk, prog):
+def _check_dead_pending_events(chk, prog, rule="R7.2"):
     owner = "sierradb_cluster::confirmation::actor::ConfirmationActor"
     users = set()
     for b in prog.bodies.values():
@@ -353,11 +360,11 @@ def _check_dead_pending_events(chk, prog):
     allowed = {"sierradb_cluster::confirmation::actor::ConfirmationActor::broadcast_confirmed_events"}
     extra = users - allowed
     if extra:
-        chk.fail("R7.2", sorted(extra)[0], "pending_events-writer",
+        chk.fail(rule, sorted(extra)[0], "pending_events-writer",
                  "ConfirmationActor.pending_events is now accessed outside broadcast_confirmed_events; that broadcast path sends "
                  "events without a watermark comparison and was only accepted because nothing fills the map", None)
     else:
-        chk.ok("R7.2", "broadcast_confirmed_events: its source map `pending_events` has no other user (dead path)", "")
+        chk.ok(rule, "broadcast_confirmed_events: its source map `pending_events` has no other user (dead path)", "")
 
 
 def _places_of(s):
